@@ -15,3 +15,54 @@ class PairNet:
             self.server.on_request(can_id, bytes(data), 0.0)
         elif can_id == self.server.tx_cobid:
             self.client.on_response(can_id, bytes(data), 0.0)
+
+
+class DisturbingPairNet(PairNet):
+    """the same bus with at most `budget` disturbances of a server response (the kinds of the property 'a disturbed
+    transfer fails loudly'): 1 lost, 2 replaced by an abort frame with any code, 3 toggle bit flipped, 4 another command
+    specifier, 5 delivered twice, 6 (answers that echo the multiplexer) another multiplexer, 7 (segment steps) a stale
+    segment response of an earlier transfer - same kind of frame, the other toggle bit, any further content - arrives
+    before the genuine one"""
+
+    def __init__(self):
+        PairNet.__init__(self)
+        self.budget = 1
+        self.last_ccs = 0
+
+    def send_message(self, can_id, data, remote=False):
+        rt.emit("send", can_id, rt.snapshot(data), remote)
+        if can_id == self.server.rx_cobid:
+            self.last_ccs = data[0] >> 5
+            self.server.on_request(can_id, bytes(data), 0.0)
+            return
+        if can_id != self.server.tx_cobid:
+            return
+        d = bytes(data)
+        if self.budget > 0 and rt.choose_bool("disturb"):
+            self.budget = self.budget - 1
+            kind = rt.choose_int("kind", 1, 7)
+            rt.emit("disturbed", kind)
+            if kind == 1:
+                return
+            if kind == 2:
+                d = bytes([0x80, d[1], d[2], d[3]]) + rt.choose_bytes("abort_code", 4)
+            elif kind == 3:
+                d = bytes([d[0] ^ 0x10]) + d[1:8]
+            elif kind == 4:
+                cs = rt.choose_int("cs", 0, 7)
+                rt.assume(cs != (d[0] >> 5))
+                d = bytes([(cs << 5) | (d[0] & 0x1F)]) + d[1:8]
+            elif kind == 5:
+                self.client.on_response(can_id, d, 0.0)
+            elif kind == 7:
+                rt.assume(self.last_ccs == 0 or self.last_ccs == 3)
+                st = rt.choose_bytes("stale_segment", 8)
+                rt.assume((st[0] >> 5) == (d[0] >> 5) and (st[0] & 0x10) != (d[0] & 0x10))
+                self.client.on_response(can_id, st, 0.0)
+            else:
+                # only the answers to initiate requests carry a multiplexer (bytes 1..3 of a segment are data)
+                rt.assume(self.last_ccs == 1 or self.last_ccs == 2)
+                m = rt.choose_bytes("other_mux", 3)
+                rt.assume(m[0] != d[1] or m[1] != d[2] or m[2] != d[3])
+                d = bytes([d[0]]) + m + d[4:8]
+        self.client.on_response(can_id, d, 0.0)
